@@ -205,8 +205,11 @@ ReadOnlyKeys(d) == IF d.kind # "struct" THEN {}
 \* does from_value still read the same variant after the key at `path` was removed from RefValue(d, vi, some)?
 InnerProbeOk(k) == k = InB                         \* in_a: String is needed, in_b: Option defaults
 SVProbeOk(k) == k = NKey
+\* a struct with a skip_serializing field that cannot be defaulted cannot read what it writes: nothing can be probed
+RefRoundtrip(d) == d.kind # "struct" \/ \A i \in DOMAIN d.fields : d.fields[i].skip = "ser" => Defaultable(d, d.fields[i])
 RefProbeOk(d, vi, path) ==
-  IF d.kind = "struct" THEN
+  IF ~RefRoundtrip(d) THEN FALSE
+  ELSE IF d.kind = "struct" THEN
     LET i == OwnerField(d, path[1]) IN
     IF d.fields[i].flatten THEN InnerProbeOk(path[1])
     ELSE IF Len(path) = 1 THEN Defaultable(d, d.fields[i])
@@ -227,7 +230,7 @@ RECURSIVE SetToSeq(_)
 SetToSeq(S) == IF S = {} THEN <<>> ELSE LET x == CHOOSE y \in S : TRUE IN <<x>> \o SetToSeq(S \ {x})
 RefSample(d, vi, some) ==
   LET j == RefValue(d, vi, some) IN
-  [v |-> vi, some |-> some, json |-> j, roundtrip |-> TRUE,
+  [v |-> vi, some |-> some, json |-> j, roundtrip |-> RefRoundtrip(d),
    probes |-> SetToSeq({[path |-> p, ok |-> RefProbeOk(d, vi, p)] : p \in PathsOf(j, <<>>, 3)})]
 RefSamples(d) == {RefSample(d, vi, some) : vi \in 1..NVariants(d), some \in BOOLEAN}
 
@@ -246,36 +249,38 @@ PropNames(n) == {p.name : p \in Rng(n.props)}
 PropOf(n, name) == CHOOSE p \in Rng(n.props) : p.name = name
 
 \* ------------------------------------------------------------------ validation: the set of reasons why jv does not validate against n
-\* top: the first key on the path from the root of the value ( <<>> at the root itself )
-W(r, jv, n, top) == [reason |-> r, vkind |-> jv.k, skw |-> IF n.ref # "" THEN "$ref" ELSE n.type, top |-> top]
+\* at: the path of keys from the root of the value to the place where the reason arises
+W(r, jv, n, at) == [reason |-> r, vkind |-> jv.k, skw |-> IF n.ref # "" THEN "$ref" ELSE n.type, at |-> at]
+Overlap(jv, n) == Cardinality(KeysOf(jv) \cap PropNames(n))
 RECURSIVE Whys(_, _, _)
-Whys(jv, n, top) ==
+\* of several branches none of which validates, the reasons reported are those of the closest ones: most keys of the value
+\* named by the branch's properties, then fewest reasons
+Closest(jv, bs, at) ==
+  LET ov(i) == Overlap(jv, bs[i])
+      m1 == {i \in DOMAIN bs : \A j \in DOMAIN bs : ov(i) >= ov(j)}
+      cnt(i) == Cardinality(Whys(jv, bs[i], at)) IN
+  {i \in m1 : \A j \in m1 : cnt(i) <= cnt(j)}
+Whys(jv, n, at) ==
   IF jv.k = "null" /\ n.nullable /\ n.ref = "" THEN {}       \* `nullable: true` read leniently (OpenAPI 3.0 keyword)
   ELSE
-    (IF n.ref # "" THEN {W("unresolvable-ref", jv, n, top)} ELSE {})
-    \cup (IF n.type # "" /\ n.type \notin KnownTypes THEN {W("unknown-type-keyword", jv, n, top)}
-          ELSE IF ~KindOK(jv.k, n.type) THEN {W("type-mismatch", jv, n, top)} ELSE {})
-    \cup (IF n.enum # <<>> /\ ~(jv.k = "string" /\ jv.s \in Rng(n.enum)) THEN {W("not-in-enum", jv, n, top)} ELSE {})
+    (IF n.ref # "" THEN {W("unresolvable-ref", jv, n, at)} ELSE {})
+    \cup (IF n.type # "" /\ n.type \notin KnownTypes THEN {W("unknown-type-keyword", jv, n, at)}
+          ELSE IF ~KindOK(jv.k, n.type) THEN {W("type-mismatch", jv, n, at)}
+          ELSE IF n.enum # <<>> /\ ~(jv.k = "string" /\ jv.s \in Rng(n.enum)) THEN {W("not-in-enum", jv, n, at)} ELSE {})
     \cup (IF jv.k # "object" THEN {}
-          ELSE {W("required-key-absent", jv, n, IF top = <<>> THEN p.name ELSE top) :
-                    p \in {q \in Rng(n.props) : q.required /\ q.name \notin KeysOf(jv)}}
-               \cup {W("required-key-absent", jv, n, IF top = <<>> THEN k ELSE top) : k \in Rng(n.reqextra) \ KeysOf(jv)}
-               \cup UNION {Whys(f.v, PropOf(n, f.name).node, IF top = <<>> THEN f.name ELSE top) :
+          ELSE {W("required-key-absent", jv, n, Append(at, k)) :
+                    k \in ({q.name : q \in {r \in Rng(n.props) : r.required}} \cup Rng(n.reqextra)) \ KeysOf(jv)}
+               \cup UNION {Whys(f.v, PropOf(n, f.name).node, Append(at, f.name)) :
                              f \in {g \in Rng(jv.fields) : g.name \in PropNames(n)}})
-    \cup (IF jv.k = "array" /\ n.items # <<>> THEN UNION {Whys(jv.items[i], n.items[1], top) : i \in DOMAIN jv.items} ELSE {})
+    \cup (IF jv.k = "array" /\ n.items # <<>> THEN UNION {Whys(jv.items[i], n.items[1], at) : i \in DOMAIN jv.items} ELSE {})
     \cup (IF n.oneOf = <<>> THEN {}
-          ELSE LET ok == {i \in DOMAIN n.oneOf : Whys(jv, n.oneOf[i], top) = {}} IN
+          ELSE LET ok == {i \in DOMAIN n.oneOf : Whys(jv, n.oneOf[i], at) = {}} IN
                IF Cardinality(ok) = 1 THEN {}
-               ELSE IF Cardinality(ok) > 1 THEN {W("oneOf-several-branches-match", jv, n, top)}
-               ELSE \* no branch: report the reasons of the closest branch(es) (fewest reasons)
-                    LET cnt(i) == Cardinality(Whys(jv, n.oneOf[i], top))
-                        best == {i \in DOMAIN n.oneOf : \A j \in DOMAIN n.oneOf : cnt(i) <= cnt(j)} IN
-                    UNION {Whys(jv, n.oneOf[i], top) : i \in best})
-    \cup (IF n.anyOf = <<>> \/ \E i \in DOMAIN n.anyOf : Whys(jv, n.anyOf[i], top) = {} THEN {}
-          ELSE LET cnt(i) == Cardinality(Whys(jv, n.anyOf[i], top))
-                   best == {i \in DOMAIN n.anyOf : \A j \in DOMAIN n.anyOf : cnt(i) <= cnt(j)} IN
-               UNION {Whys(jv, n.anyOf[i], top) : i \in best})
-    \cup UNION {Whys(jv, n.allOf[i], top) : i \in DOMAIN n.allOf}
+               ELSE IF Cardinality(ok) > 1 THEN {W("oneOf-several-branches-match", jv, n, at)}
+               ELSE UNION {Whys(jv, n.oneOf[i], at) : i \in Closest(jv, n.oneOf, at)})
+    \cup (IF n.anyOf = <<>> \/ \E i \in DOMAIN n.anyOf : Whys(jv, n.anyOf[i], at) = {} THEN {}
+          ELSE UNION {Whys(jv, n.anyOf[i], at) : i \in Closest(jv, n.anyOf, at)})
+    \cup UNION {Whys(jv, n.allOf[i], at) : i \in DOMAIN n.allOf}
 Valid(jv, n) == Whys(jv, n, <<>>) = {}
 
 \* ------------------------------------------------------------------ property names and requiredness at every object position
@@ -283,26 +288,30 @@ ProbeOk(smp, path) == IF \E p \in Rng(smp.probes) : p.path = path
                         THEN (CHOOSE p \in Rng(smp.probes) : p.path = path).ok
                         ELSE TRUE        \* deeper than the harness probes: nothing is claimed
 \* the node that describes a set of values: the node itself, or for oneOf/anyOf the first branch that validates one
-\* of them (none: no name/required facts at this position; the values are reported as value-invalid anyway)
+\* of them and names most of their keys (none: no name/required facts at this position; the values are reported as
+\* value-invalid anyway)
 Branches(n) == IF n.oneOf # <<>> THEN n.oneOf ELSE n.anyOf
 ResolveNode(n, vals) ==
   IF Branches(n) = <<>> THEN <<n>>
   ELSE LET bs == Branches(n)
-           cand == {i \in DOMAIN bs : \E v \in vals : Valid(v, bs[i])} IN
-       IF cand = {} THEN <<>> ELSE <<bs[CHOOSE i \in cand : \A j \in cand : i <= j]>>
+           cand == {i \in DOMAIN bs : \E v \in vals : Valid(v, bs[i])}
+           ov(i) == Cardinality((UNION {KeysOf(v) : v \in vals}) \cap PropNames(bs[i]))
+           best == {i \in cand : \A j \in cand : ov(i) >= ov(j)} IN
+       IF cand = {} THEN <<>> ELSE <<bs[CHOOSE i \in best : \A j \in best : i <= j]>>
 
 RECURSIVE ObjFacts(_, _, _, _)
 ObjFacts(n0, S, path, tolerated) ==
   LET objs == {s \in S : Has(s.json, path) /\ At(s.json, path).k = "object"}
       rn == ResolveNode(n0, {At(s.json, path) : s \in objs}) IN
   IF objs = {} \/ rn = <<>> \/ Len(path) >= 3 THEN {}
-  ELSE IF rn[1].ref # "" THEN {}
+  ELSE IF rn[1].ref # "" \/ rn[1].type \notin {"", "object"} THEN {}     \* not an object schema: reported as value-invalid
   ELSE
     LET n == rn[1]
         keys == UNION {KeysOf(At(s.json, path)) : s \in objs}
         props == PropNames(n)
         always(k) == \A s \in objs : k \in KeysOf(At(s.json, path))
-        needed(k) == \E s \in objs : k \in KeysOf(At(s.json, path)) /\ ~ProbeOk(s, Append(path, k))
+        rt == {s \in objs : s.roundtrip}       \* probes mean something only if serde can read the unmodified value
+        needed(k) == \E s \in rt : k \in KeysOf(At(s.json, path)) /\ ~ProbeOk(s, Append(path, k))
         sreq(k) == PropOf(n, k).required
         F(fact, k, outcome) == [fact |-> fact, path |-> path, key |-> k, outcome |-> outcome]
     IN {F("property-missing", k, "written-key-is-not-a-property") : k \in keys \ props}
@@ -310,39 +319,38 @@ ObjFacts(n0, S, path, tolerated) ==
        \cup {F("required-mismatch", k,
                IF sreq(k) THEN (IF ~always(k) THEN "required-but-serde-omits-it" ELSE "required-but-serde-defaults-it")
                ELSE "optional-but-serde-always-writes-and-needs-it") :
-             k \in {x \in keys \cap props : sreq(x) # (always(x) /\ needed(x))}}
+             k \in {x \in keys \cap props : rt # {} /\ sreq(x) # (always(x) /\ needed(x))}}
        \cup UNION {ObjFacts(PropOf(n, k).node, {s \in objs : k \in KeysOf(At(s.json, path))}, Append(path, k), {}) :
                    k \in keys \cap props}
 
 \* ------------------------------------------------------------------ the relation
-\* all violated facts of one observation: records [fact, path, key, outcome, vi, reason, vkind, skw]
+\* all violated facts of one observation: records [fact, at (key path concerned), outcome, vi (variant), vkind, skw]
 Fails(d, schema, samples) ==
-  LET inv == UNION {{[fact |-> "value-invalid", path |-> <<>>, key |-> w.top, outcome |-> w.reason, vi |-> s.v,
+  LET inv == UNION {{[fact |-> "value-invalid", at |-> w.at, outcome |-> w.reason, vi |-> s.v,
                       vkind |-> w.vkind, skw |-> w.skw] : w \in Whys(s.json, schema, <<>>)} : s \in samples}
       grp(vi) == {s \in samples : s.v = vi}
-      facts == UNION {{[fact |-> f.fact, path |-> f.path, key |-> f.key, outcome |-> f.outcome, vi |-> vi,
+      facts == UNION {{[fact |-> f.fact, at |-> Append(f.path, f.key), outcome |-> f.outcome, vi |-> vi,
                         vkind |-> "-", skw |-> "-"] : f \in ObjFacts(schema, grp(vi), <<>>, ReadOnlyKeys(d))}
                       : vi \in {s.v : s \in samples}}
   IN inv \cup facts
 SchemaMatchesSerde(d, schema, samples) == Fails(d, schema, samples) = {}
 
 \* ------------------------------------------------------------------ signatures (class of the definition part concerned + class of the outcome)
-KeyRole(d, vi, path, key) ==
-  IF d.kind = "struct" THEN (IF path = <<>> THEN "field" ELSE "nested-field")
-  ELSE CASE d.tagging = "external" -> IF path = <<>> THEN (IF key = <<>> THEN "value" ELSE "variant-key") ELSE "payload-field"
-         [] d.tagging = "internal" -> IF path = <<>> /\ key = TagKey THEN "tag" ELSE IF key = <<>> THEN "value" ELSE "payload-field"
-         [] d.tagging = "adjacent" -> IF path = <<>> /\ key = TagKey THEN "tag" ELSE IF path = <<>> /\ key = ContentKey THEN "content"
-                                       ELSE IF key = <<>> THEN "value" ELSE "payload-field"
-         [] d.tagging = "untagged" -> IF key = <<>> THEN "value" ELSE "payload-field"
+KeyRole(d, at) ==
+  IF at = <<>> THEN "value"
+  ELSE IF d.kind = "struct" THEN (IF Len(at) = 1 THEN "field" ELSE "nested-field")
+  ELSE CASE d.tagging = "external" -> IF Len(at) = 1 THEN "variant-key" ELSE "payload-field"
+         [] d.tagging = "internal" -> IF at = <<TagKey>> THEN "tag" ELSE "payload-field"
+         [] d.tagging = "adjacent" -> IF at = <<TagKey>> THEN "tag" ELSE IF at = <<ContentKey>> THEN "content" ELSE "payload-field"
+         [] d.tagging = "untagged" -> "payload-field"
 Sig0 == [kind |-> "-", fact |-> "-", outcome |-> "-", vkind |-> "-", skw |-> "-", role |-> "-", ra |-> "-",
          cdefault |-> "-", ty |-> "-", opt |-> "-", rclass |-> "-", skip |-> "-", ssif |-> "-", fdefault |-> "-",
          flatten |-> "-", style |-> "-", tagging |-> "-", shape |-> "-", payload |-> "-"]
 SigOf(d, f) ==
-  LET topkey == IF f.path = <<>> THEN f.key ELSE f.path[1]
-      base == [Sig0 EXCEPT !.kind = d.kind, !.fact = f.fact, !.outcome = f.outcome, !.vkind = f.vkind, !.skw = f.skw,
-                           !.ra = d.ra, !.role = KeyRole(d, f.vi, f.path, f.key)] IN
+  LET base == [Sig0 EXCEPT !.kind = d.kind, !.fact = f.fact, !.outcome = f.outcome, !.vkind = f.vkind, !.skw = f.skw,
+                           !.ra = d.ra, !.role = KeyRole(d, f.at)] IN
   IF d.kind = "struct" THEN
-    LET i == OwnerField(d, topkey) IN
+    LET i == IF f.at = <<>> THEN 0 ELSE OwnerField(d, f.at[1]) IN
     IF i = 0 THEN [base EXCEPT !.cdefault = B(d.cdefault)]
     ELSE LET fl == d.fields[i] IN
          [base EXCEPT !.cdefault = B(d.cdefault), !.ty = fl.ty, !.opt = B(fl.opt), !.rclass = fl.rclass, !.skip = fl.skip,
